@@ -570,6 +570,11 @@ def _shortest_valid_path(
                 path.extend(temp_path)
                 break
 
+    if not path_exists:
+        # backtrack: whether cur_node may be passed depends on the node it is entered from,
+        # so it has to stay available for the branches that are still to be explored
+        visited.discard(cur_node)
+
     return (path_exists, path)
 
 
